@@ -3,6 +3,7 @@ package props
 import (
 	"fmt"
 	"go/ast"
+	"go/constant"
 	"go/token"
 	"strings"
 
@@ -46,4 +47,44 @@ func checkTimeEquality(c *core.Ctx, rule string, pkgs ...string) {
 		})
 	}
 	c.OK(rule, "no struct comparison of time.Time", 0, n, fmt.Sprintf("%d ==/!= comparisons type-checked, %d between time.Time values", n, hits))
+}
+
+// checkFlushBound (ENDFLUSH): at end of stream the buffers (event-time buffer, both joins, the output wrapper) are
+// emptied by "flush everything up to WatermarkMaxValue". That empties them only if no event time can lie above the
+// constant. time.Unix(0, math.MaxInt64) is the year 2262 — records dated later never leave the buffers, silently.
+// The bound must be the largest representable time.Time: seconds 1<<63-62135596801 (and the largest nanosecond part).
+func checkFlushBound(c *core.Ctx, rule string) {
+	p := c.Prog
+	pkg := p.Pkg("execution")
+	key := "execution.WatermarkMaxValue"
+	if pkg == nil {
+		c.Unknown(rule, key, 0, "package not found")
+		return
+	}
+	var call *ast.CallExpr
+	for _, f := range pkg.Syntax {
+		ast.Inspect(f, func(n ast.Node) bool {
+			vs, ok := n.(*ast.ValueSpec)
+			if !ok || len(vs.Names) != 1 || vs.Names[0].Name != "WatermarkMaxValue" || len(vs.Values) != 1 {
+				return true
+			}
+			call, _ = vs.Values[0].(*ast.CallExpr)
+			return false
+		})
+	}
+	if call == nil || p.CalleeName(pkg.TypesInfo, call) != "time.Unix" || len(call.Args) != 2 {
+		c.Unknown(rule, key, 0, "WatermarkMaxValue is not initialised by a time.Unix(sec, nsec) call")
+		return
+	}
+	sec, nsec := pkg.TypesInfo.Types[call.Args[0]].Value, pkg.TypesInfo.Types[call.Args[1]].Value
+	if sec == nil || nsec == nil {
+		c.Unknown(rule, key, call.Pos(), "the arguments of time.Unix are not constants")
+		return
+	}
+	// total seconds = sec + nsec / 1e9; the largest time.Time has unix seconds 1<<63 - 1 - 62135596800
+	total := constant.BinaryOp(sec, token.ADD, constant.BinaryOp(nsec, token.QUO_ASSIGN, constant.MakeInt64(1000000000)))
+	maxSec := constant.BinaryOp(constant.MakeInt64(1<<63-1), token.SUB, constant.MakeInt64(62135596800))
+	ok := constant.Compare(total, token.GEQ, maxSec)
+	c.Decide(ok, rule, key, call.Pos(), 1, "the flush bound is the largest representable time",
+		fmt.Sprintf("WatermarkMaxValue = %s is unix second %s (the year 2262 for time.Unix(0, math.MaxInt64)), far below the largest time.Time (unix second %s): a record with a later event time is never released by the end-of-stream flush of the event-time buffer, the joins and the output wrapper — it disappears without an error", core.ExprStr(call), total.ExactString(), maxSec.ExactString()))
 }
